@@ -205,8 +205,15 @@ def grid_case(ctx, r):
     cost_too_long = cost_ms > seglen or (name == "PELT" and cost_ms > kw["min_segment_length"])
     if inv or data_invalid:
         why = "; ".join(inv + data_invalid)
-        if outcome.startswith("ValueError"):
+        # hyper-parameters and training data must be rejected when constructing or fitting;
+        # only bad predict data may be rejected as late as predict
+        late_ok = not inv and n >= min_n and r["nan"] == "nan-predict"
+        if outcome.startswith("ValueError") and (late_ok or not outcome.endswith("@predict")):
             ctx.stat("grid_invalid_rejected")
+        elif outcome.startswith("ValueError"):
+            ctx.violation(sub, f"rejected-too-late[{(inv + data_invalid)[0]}]",
+                          f"{label}: invalid ({why}) but constructing and fitting succeeded; the "
+                          f"ValueError only came from predict: {msg}", r)
         elif outcome.startswith("RuntimeError") and any(
                 s and s.get("cls") == "GaussianCovCost" for s in kw.values() if isinstance(s, dict)):
             ctx.stat("grid_invalid_runtimeerror_permitted")
